@@ -195,9 +195,9 @@ def run(tier, seed):
     t0 = time.time()
     total = Result()
     if tier == 'quick':
-        nhist, maxops, variants, mult = 4000, 12, [('release', 1.0), ('dev', 0.4), ('nightly', 0.4)], 1
+        nhist, maxops, variants, mult = 4000, 12, [('release', 1.0), ('dev', 0.4), ('nightly', 0.4), ('plain', 0.3)], 1
     else:
-        nhist, maxops, variants, mult = 200000, 25, [('release', 1.0), ('dev', 0.3), ('nightly', 0.3)], 8
+        nhist, maxops, variants, mult = 200000, 25, [('release', 1.0), ('dev', 0.3), ('nightly', 0.3), ('plain', 0.2)], 8
     try:
         for variant, frac in variants:
             binary = build(variant)
